@@ -707,3 +707,178 @@ Proof.
   unfold valid_batch_contract. cbn. rewrite nz_succ, Hck. cbn.
   unfold vb_origin_tx in Ho. bdestr Ho. rewrite Ec in Ho1. exact Ho1.
 Qed.
+
+(* ---- updates of existing rows ---- *)
+
+Lemma vbd_same d k ba ba' :
+  ba_issuer ba' = ba_issuer ba -> ba_project_key ba' = ba_project_key ba -> ba_denom ba' = ba_denom ba ->
+  ba_start ba' = ba_start ba -> ba_end ba' = ba_end ba ->
+  len_le (ba_metadata ba') max_metadata_length = true -> vbd d k ba = true -> vbd d k ba' = true.
+Proof.
+  intros E1 E2 E3 E4 E5 Hm Hv. unfold vbd, valid_batch_except_dates, valid_batch_dates in *.
+  rewrite E1, E2, E3, E4, E5, Hm. bdestr Hv. rewrite Hv, Hv0, Hv2, Hv3, Hv4. reflexivity.
+Qed.
+
+Lemma vbd_metadata d k ba : vbd d k ba = true -> len_le (ba_metadata ba) max_metadata_length = true.
+Proof. unfold vbd, valid_batch_except_dates. intros Hv. bdestr Hv. assumption. Qed.
+
+Lemma h_seal_batch_MV d e s issuer denom s' r evs : MV d s -> h_seal_batch e s issuer denom = LOk (s', r, evs) -> MV d s'.
+Proof.
+  intros Hmv. unfold h_seal_batch. intros Hh. lstep Hh as kb Hkb. destruct kb as [bk ba]. lstep Hh as u Hu.
+  apply batch_by_denom_Some in Hkb. destruct Hkb as [Hba _].
+  destruct (negb (ba_open ba)); apply ret_inv in Hh; subst s'; [exact Hmv|].
+  pose proof (mv_ba d s Hmv _ _ Hba) as Hv. unfold set_batch. mv_updates Hmv.
+  apply fa_insert; [|assumption]. eapply vbd_same; [..|exact Hv]; try reflexivity. cbn. eapply vbd_metadata. exact Hv.
+Qed.
+
+Lemma h_update_batch_metadata_MV d e s issuer denom md s' r evs :
+  MV d s -> len_le md max_metadata_length = true ->
+  h_update_batch_metadata e s issuer denom md = LOk (s', r, evs) -> MV d s'.
+Proof.
+  intros Hmv Hmd. unfold h_update_batch_metadata. intros Hh. lstep Hh as kb Hkb. destruct kb as [bk ba].
+  lstep Hh as u Hu. lstep Hh as u2 Hu2. apply ret_inv in Hh. subst s'.
+  apply batch_by_denom_Some in Hkb. destruct Hkb as [Hba _].
+  pose proof (mv_ba d s Hmv _ _ Hba) as Hv. unfold set_batch. mv_updates Hmv.
+  apply fa_insert; [|assumption]. eapply vbd_same; [..|exact Hv]; try reflexivity. exact Hmd.
+Qed.
+
+Lemma valid_class_same k c c' : cl_id c' = cl_id c -> cl_ct c' = cl_ct c ->
+  len_le (cl_metadata c') max_metadata_length = true -> valid_class k c = true -> valid_class k c' = true.
+Proof.
+  intros E1 E2 Hm Hv. unfold valid_class in *. rewrite E1, E2, Hm. bdestr Hv. rewrite Hv, Hv0, Hv3. reflexivity.
+Qed.
+
+Lemma valid_class_metadata k c : valid_class k c = true -> len_le (cl_metadata c) max_metadata_length = true.
+Proof. unfold valid_class. intros Hv. bdestr Hv. assumption. Qed.
+
+Lemma h_update_class_admin_MV d e s admin class_id new_admin s' r evs :
+  MV d s -> h_update_class_admin e s admin class_id new_admin = LOk (s', r, evs) -> MV d s'.
+Proof.
+  intros Hmv. unfold h_update_class_admin. intros Hh. lstep Hh as kc Hkc. destruct kc as [k c]. lstep Hh as u Hu.
+  apply ret_inv in Hh. subst s'. apply class_by_id_Some in Hkc. destruct Hkc as [Hc _].
+  pose proof (mv_cl d s Hmv _ _ Hc) as Hv. unfold set_class. mv_updates Hmv.
+  apply fa_insert; [|assumption]. eapply valid_class_same; [..|exact Hv]; try reflexivity. cbn. eapply valid_class_metadata. exact Hv.
+Qed.
+
+Lemma h_update_class_metadata_MV d e s admin class_id md s' r evs :
+  MV d s -> len_le md max_metadata_length = true ->
+  h_update_class_metadata e s admin class_id md = LOk (s', r, evs) -> MV d s'.
+Proof.
+  intros Hmv Hmd. unfold h_update_class_metadata. intros Hh. lstep Hh as kc Hkc. destruct kc as [k c]. lstep Hh as u Hu.
+  apply ret_inv in Hh. subst s'. apply class_by_id_Some in Hkc. destruct Hkc as [Hc _].
+  pose proof (mv_cl d s Hmv _ _ Hc) as Hv. unfold set_class. mv_updates Hmv.
+  apply fa_insert; [|assumption]. eapply valid_class_same; [..|exact Hv]; try reflexivity. exact Hmd.
+Qed.
+
+Lemma fold_remove_issuers_spec k l : forall s,
+  exists iss, fold_left (fun s a => s <| class_issuers := class_issuers s ∖ {[ (k, a) ]} |>) l s = s <| class_issuers := iss |>
+              /\ forall x, x ∈ iss -> x ∈ class_issuers s.
+Proof.
+  induction l as [|a l IH]; intros s; cbn.
+  - exists (class_issuers s). split; [destruct s; reflexivity|auto].
+  - destruct (IH (s <| class_issuers := class_issuers s ∖ {[ (k, a) ]} |>)) as (iss & -> & Hiss).
+    exists iss. split; [apply set_issuers_twice|]. intros x Hx. specialize (Hiss x Hx). cbn in Hiss.
+    apply elem_of_difference in Hiss. tauto.
+Qed.
+
+Lemma h_update_class_issuers_MV d e s admin class_id add remove s' r evs :
+  MV d s -> h_update_class_issuers e s admin class_id add remove = LOk (s', r, evs) -> MV d s'.
+Proof.
+  intros Hmv. unfold h_update_class_issuers. intros Hh. lstep Hh as kc Hkc. destruct kc as [k c]. lstep Hh as u Hu.
+  cbv zeta in Hh. lstep Hh as s2 H2. apply ret_inv in Hh. subst s'.
+  apply class_by_id_Some in Hkc. destruct Hkc as [Hc _].
+  pose proof (mv_cl d s Hmv _ _ Hc) as Hv. unfold valid_class in Hv. bdestr Hv.
+  destruct (fold_remove_issuers_spec k remove s) as (iss & Ef & Hiss). rewrite Ef in H2.
+  apply insert_issuers_spec in H2. destruct H2 as (iss2 & -> & Hiss2). rewrite set_issuers_twice.
+  apply MV_set_issuers with (k := k); [exact Hmv|exact Hv|].
+  intros x Hx. destruct (Hiss2 x Hx) as [Hx'|Hx']; [left; apply Hiss; exact Hx'|right; exact Hx'].
+Qed.
+
+Lemma valid_project_same k p p' : pj_id p' = pj_id p -> pj_class_key p' = pj_class_key p ->
+  pj_jurisdiction p' = pj_jurisdiction p -> len_le (pj_metadata p') max_metadata_length = true ->
+  valid_project k p = true -> valid_project k p' = true.
+Proof.
+  intros E1 E2 E3 Hm Hv. unfold valid_project in *. rewrite E1, E2, E3, Hm. bdestr Hv. rewrite Hv, Hv1, Hv2, Hv4. reflexivity.
+Qed.
+Lemma valid_project_metadata k p : valid_project k p = true -> len_le (pj_metadata p) max_metadata_length = true.
+Proof. unfold valid_project. intros Hv. bdestr Hv. assumption. Qed.
+
+Lemma h_update_project_admin_MV d e s admin project_id new_admin s' r evs :
+  MV d s -> h_update_project_admin e s admin project_id new_admin = LOk (s', r, evs) -> MV d s'.
+Proof.
+  intros Hmv. unfold h_update_project_admin. intros Hh. lstep Hh as kp Hkp. destruct kp as [k p]. lstep Hh as u Hu.
+  apply ret_inv in Hh. subst s'. apply project_by_id_Some in Hkp. destruct Hkp as [Hp _].
+  pose proof (mv_pj d s Hmv _ _ Hp) as Hv. unfold set_project. mv_updates Hmv.
+  apply fa_insert; [|assumption]. eapply valid_project_same; [..|exact Hv]; try reflexivity. cbn. eapply valid_project_metadata. exact Hv.
+Qed.
+
+Lemma h_update_project_metadata_MV d e s admin project_id md s' r evs :
+  MV d s -> len_le md max_metadata_length = true ->
+  h_update_project_metadata e s admin project_id md = LOk (s', r, evs) -> MV d s'.
+Proof.
+  intros Hmv Hmd. unfold h_update_project_metadata. intros Hh. lstep Hh as kp Hkp. destruct kp as [k p]. lstep Hh as u Hu.
+  apply ret_inv in Hh. subst s'. apply project_by_id_Some in Hkp. destruct Hkp as [Hp _].
+  pose proof (mv_pj d s Hmv _ _ Hp) as Hv. unfold set_project. mv_updates Hmv.
+  apply fa_insert; [|assumption]. eapply valid_project_same; [..|exact Hv]; try reflexivity. exact Hmd.
+Qed.
+
+(* ---- governance messages of the base module ---- *)
+
+Lemma h_add_credit_type_MV d e s a abbrev name unit_ precision s' r evs :
+  MV d s -> validate_credit_type_abbrev abbrev = true -> nonempty name = true ->
+  len_le name max_credit_type_name_length = true -> nonempty unit_ = true -> (precision =? credit_type_precision) = true ->
+  h_add_credit_type e s a abbrev name unit_ precision = LOk (s', r, evs) -> MV d s'.
+Proof.
+  intros Hmv H1 H2 H3 H4 H5. unfold h_add_credit_type. intros Hh. lstep Hh as u Hu. lstep Hh as u2 Hu2. lstep Hh as u3 Hu3.
+  apply ret_inv in Hh. subst s'. mv_updates Hmv. apply fa_insert; [|assumption].
+  unfold valid_credit_type. cbn [ct_name ct_unit ct_precision]. rewrite H1, H2, H3, H4, H5. reflexivity.
+Qed.
+
+Lemma valid_denom_nonempty x : valid_denom x = true -> nonempty x = true.
+Proof. destruct x; [discriminate|reflexivity]. Qed.
+
+(* (e) fees: the stored fee is the validated coin, or nothing when its amount is zero *)
+Lemma normalise_fee_valid fee : (match fee with None => True | Some c => coin_valid c = true end) -> valid_fee (normalise_fee fee) = true.
+Proof.
+  destruct fee as [c|]; [|reflexivity]. intros Hc. unfold normalise_fee. destruct (0 <? c_amount c); [|reflexivity].
+  unfold valid_fee. rewrite Hc. unfold coin_valid in Hc. apply andb_true_iff in Hc. destruct Hc as [Hd _].
+  rewrite (valid_denom_nonempty _ Hd). reflexivity.
+Qed.
+
+Lemma h_update_class_fee_MV d e s a fee s' r evs :
+  MV d s -> (match fee with None => True | Some c => coin_valid c = true end) ->
+  h_update_class_fee e s a fee = LOk (s', r, evs) -> MV d s'.
+Proof.
+  intros Hmv Hf. unfold h_update_class_fee. intros Hh. lstep Hh as u Hu. apply ret_inv in Hh. subst s'.
+  mv_updates Hmv. apply normalise_fee_valid. exact Hf.
+Qed.
+
+Lemma h_update_basket_fee_MV d e s a fee s' r evs :
+  MV d s -> (match fee with None => True | Some c => coin_valid c = true end) ->
+  h_update_basket_fee e s a fee = LOk (s', r, evs) -> MV d s'.
+Proof.
+  intros Hmv Hf. unfold h_update_basket_fee. intros Hh. lstep Hh as u Hu. apply ret_inv in Hh. subst s'.
+  mv_updates Hmv. apply normalise_fee_valid. exact Hf.
+Qed.
+
+Lemma h_add_allowed_bridge_chain_MV d e s a chain s' r evs :
+  MV d s -> nonempty chain = true -> h_add_allowed_bridge_chain e s a chain = LOk (s', r, evs) -> MV d s'.
+Proof.
+  intros Hmv Hc. unfold h_add_allowed_bridge_chain. intros Hh. lstep Hh as u Hu. cbv zeta in Hh. lstep Hh as u2 Hu2.
+  apply ret_inv in Hh. subst s'. mv_updates Hmv. apply fs_union; [|assumption].
+  unfold valid_allowed_bridge_chain. apply nonempty_to_lower. exact Hc.
+Qed.
+
+Lemma h_remove_allowed_bridge_chain_MV d e s a chain s' r evs :
+  MV d s -> h_remove_allowed_bridge_chain e s a chain = LOk (s', r, evs) -> MV d s'.
+Proof.
+  intros Hmv. unfold h_remove_allowed_bridge_chain. intros Hh. lstep Hh as u Hu. apply ret_inv in Hh. subst s'.
+  mv_updates Hmv. apply fs_diff. assumption.
+Qed.
+
+Lemma h_set_allowlist_meq e s a en s' r evs : h_set_allowlist e s a en = LOk (s', r, evs) -> meq s s'.
+Proof. unfold h_set_allowlist. intros Hh. lstep Hh as u Hu. apply ret_inv in Hh. subst s'. reflexivity. Qed.
+Lemma h_add_class_creator_meq e s a c s' r evs : h_add_class_creator e s a c = LOk (s', r, evs) -> meq s s'.
+Proof. unfold h_add_class_creator. intros Hh. lstep Hh as u Hu. lstep Hh as u2 Hu2. apply ret_inv in Hh. subst s'. reflexivity. Qed.
+Lemma h_remove_class_creator_meq e s a c s' r evs : h_remove_class_creator e s a c = LOk (s', r, evs) -> meq s s'.
+Proof. unfold h_remove_class_creator. intros Hh. lstep Hh as u Hu. lstep Hh as u2 Hu2. apply ret_inv in Hh. subst s'. reflexivity. Qed.
